@@ -173,12 +173,17 @@ func MessageToPublish(msg *Message, version packets.Version) *packets.Publish {
 		if msg.ResponseTopic != "" {
 			responseTopic = []byte(msg.ResponseTopic)
 		}
+		// zero length correlation data is treated as absent, like in TotalBytes and MessageFromPublish.
+		var correlationData []byte
+		if len(msg.CorrelationData) != 0 {
+			correlationData = msg.CorrelationData
+		}
 		var payloadFormat *byte
 		if e := msg.PayloadFormat; e == packets.PayloadFormatString {
 			payloadFormat = &e
 		}
 		pub.Properties = &packets.Properties{
-			CorrelationData:        msg.CorrelationData,
+			CorrelationData:        correlationData,
 			ContentType:            contentType,
 			MessageExpiry:          msgExpiry,
 			ResponseTopic:          responseTopic,
